@@ -206,6 +206,7 @@ type Service struct {
 	workbuf        []*work                // Underlying buffer of the workqueue
 	workcond       sync.Cond              // Cond waited on by workers and signaled when work is added to workqueue
 	wg             sync.WaitGroup         // WaitGroup for all workers
+	stopped        chan struct{}          // Channel closed by Shutdown once the service is stopped; set while serving
 	mu             sync.Mutex             // Mutex to protect rwork map
 	logger         logger.Logger          // Logger
 	queueGroup     string                 // Queue group to use with CharQueueSubscribe
@@ -668,9 +669,11 @@ func (s *Service) serve(nc Conn) error {
 	// Initialize fields
 	inCh := make(chan *nats.Msg, s.inChannelSize)
 	workCh := make(chan *work, 1)
+	stopped := make(chan struct{})
 	s.mu.Lock()
 	s.nc = nc
 	s.inCh = inCh
+	s.stopped = stopped
 	s.workcond = sync.Cond{L: &s.mu}
 	s.workbuf = make([]*work, s.inChannelSize)
 	s.workqueue = s.workbuf[:0]
@@ -711,8 +714,10 @@ func (s *Service) serve(nc Conn) error {
 	// Stop all workers by closing worker channel
 	close(workCh)
 
-	// Wait for all workers to be done
-	s.wg.Wait()
+	// Wait for Shutdown to have stopped all workers. The WaitGroup is not
+	// waited on here, as it may already be in use by a new call to Serve once
+	// Shutdown has returned.
+	<-stopped
 	return nil
 }
 
@@ -734,10 +739,13 @@ func (s *Service) Shutdown() error {
 	s.mu.Lock()
 	s.inCh = nil
 	s.nc = nil
+	stopped := s.stopped
+	s.stopped = nil
 	s.mu.Unlock()
 
 	atomic.StoreInt32(&s.state, stateStopped)
 	verifhook.Note("shutdown-stopped", "", 0)
+	close(stopped)
 
 	s.infof("Stopped")
 	return nil
